@@ -733,6 +733,7 @@ impl<'a> Parser<'a> {
             let op = self.current().clone();
             self.next()?;
 
+            let rhs_in_parentheses = self.current() == &Token::LeftParentheses;
             let rhs = if op == Token::LeftSquareParentheses {
                 // The index of a subscript is a complete expression of its own
                 self.parse_expression_internal()?
@@ -784,6 +785,8 @@ impl<'a> Parser<'a> {
                         ParserExpressionTreeData::Tuple { values } => {
                             values
                         }
+                        // A parenthesised list of one element
+                        _ if rhs_in_parentheses => { vec![rhs] }
                         _ => { return Err(ParserError::new(op_location, ParserErrorType::ExpectedTuple)); }
                     };
 
@@ -797,6 +800,8 @@ impl<'a> Parser<'a> {
                         ParserExpressionTreeData::Tuple { values } => {
                             values
                         }
+                        // A parenthesised list of one element
+                        _ if rhs_in_parentheses => { vec![rhs] }
                         _ => { return Err(ParserError::new(op_location, ParserErrorType::ExpectedTuple)); }
                     };
 
